@@ -55,12 +55,13 @@ type TraditionalDnsConn struct {
 	queueMu       sync.RWMutex
 	reservedQuery int
 	nextQid       uint16
-	queue         map[uint32]chan *[]byte // uint32 has fast path
+	queue         map[uint32]chan *[]byte // uint32 has fast path. Queries that are waiting for a reply.
 
 	// waitingResp indicates connection is waiting a reply from the peer.
 	// It can identify c is dead or buggy in some circumstances. e.g. Network is dropped
 	// and the sockets were still open because no fin or rst was received.
-	waitingResp atomic.Bool
+	// Protected by queueMu, so that it and the read deadline always agree with the queue.
+	waitingResp bool
 }
 
 type TraditionalDnsConnOpts struct {
@@ -105,7 +106,7 @@ func (dc *TraditionalDnsConn) exchange(ctx context.Context, q []byte) (*[]byte, 
 	if respChan == nil {
 		return nil, ErrTDCTooManyQueries
 	}
-	defer dc.deleteQueueC(assignedQid)
+	defer dc.deleteQueueC(assignedQid, respChan)
 
 	// Reminder: Set write deadline here is not very useful to avoid dead connections.
 	// Typically, a write operation will time out only if its socket buffer is full.
@@ -120,11 +121,12 @@ func (dc *TraditionalDnsConn) exchange(ctx context.Context, q []byte) (*[]byte, 
 	// If a query was sent, server should have a reply (even not for this query) in a short time.
 	// This indicates the connection is healthy. Otherwise, this connection might be dead.
 	// The Read deadline will be refreshed in DnsConn.readLoop() after every successful read.
-	// Note: There has a race condition in this SetReadDeadline() call and the one in
-	// readLoop(). It's not a big problem.
-	if dc.waitingResp.CompareAndSwap(false, true) {
+	dc.queueMu.Lock()
+	if !dc.waitingResp {
+		dc.waitingResp = true
 		dc.c.SetReadDeadline(time.Now().Add(waitingReplyTimeout))
 	}
+	dc.queueMu.Unlock()
 
 	var resend <-chan time.Time
 	if !dc.isTcp {
@@ -190,16 +192,25 @@ func (dc *TraditionalDnsConn) readResp() (payload *[]byte, err error) {
 func (dc *TraditionalDnsConn) readLoop() {
 
 	for {
-		dc.c.SetReadDeadline(time.Now().Add(dc.idleTimeout))
+		dc.queueMu.Lock()
+		if len(dc.queue) > 0 {
+			// Some queries are still waiting. The server should send another reply in a short time.
+			dc.waitingResp = true
+			dc.c.SetReadDeadline(time.Now().Add(waitingReplyTimeout))
+		} else {
+			dc.waitingResp = false
+			dc.c.SetReadDeadline(time.Now().Add(dc.idleTimeout))
+		}
+		dc.queueMu.Unlock()
+
 		r, err := dc.readResp()
 		if err != nil {
 			dc.CloseWithErr(fmt.Errorf("read err, %w", err)) // abort this connection.
 			return
 		}
-		dc.waitingResp.Store(false)
 
 		rid := binary.BigEndian.Uint16(*r)
-		resChan := dc.getQueueC(rid)
+		resChan := dc.popQueueC(rid)
 		if resChan != nil {
 			select {
 			case resChan <- r: // resChan has buffer
@@ -238,10 +249,14 @@ func (dc *TraditionalDnsConn) CloseWithErr(err error) {
 	})
 }
 
-func (dc *TraditionalDnsConn) getQueueC(qid uint16) chan<- *[]byte {
-	dc.queueMu.RLock()
-	defer dc.queueMu.RUnlock()
-	return dc.queue[uint32(qid)]
+// popQueueC removes qid from the queue and returns its channel. The query
+// is no longer waiting for a reply.
+func (dc *TraditionalDnsConn) popQueueC(qid uint16) chan<- *[]byte {
+	dc.queueMu.Lock()
+	defer dc.queueMu.Unlock()
+	c := dc.queue[uint32(qid)]
+	delete(dc.queue, uint32(qid))
+	return c
 }
 
 func (dc *TraditionalDnsConn) queueLen() int {
@@ -276,9 +291,12 @@ func (dc *TraditionalDnsConn) addQueueC() (qid uint16, c chan *[]byte) {
 	return 0, nil
 }
 
-func (dc *TraditionalDnsConn) deleteQueueC(qid uint16) {
+// deleteQueueC removes qid from the queue if it still belongs to c.
+func (dc *TraditionalDnsConn) deleteQueueC(qid uint16, c chan *[]byte) {
 	dc.queueMu.Lock()
-	delete(dc.queue, uint32(qid))
+	if dc.queue[uint32(qid)] == c {
+		delete(dc.queue, uint32(qid))
+	}
 	dc.queueMu.Unlock()
 }
 
